@@ -499,18 +499,52 @@ func c09R3(e *Engine) {
 			continue
 		}
 		var evalCall *ssa.Call
+		var evalTop ssa.Instruction // the evaluation as seen from the entry point: the call itself or the helper call leading to it
 		var errsTest ssa.Value
-		instrs(fn, func(in ssa.Instruction) {
+		e.walkLocal("interp", fn, 2, func(in ssa.Instruction, ctx []callCtx) {
 			c, ok := in.(*ssa.Call)
 			if !ok {
 				return
 			}
 			if g := c.Call.StaticCallee(); g != nil && e.fnRole(g) == "lang" && (g.Name() == "Eval" || g.Name() == "EvalUpdate") {
-				evalCall = c
+				evalCall, evalTop = c, in
+				if len(ctx) > 0 {
+					evalTop = ctx[0].call.(ssa.Instruction)
+				}
 			}
 		})
 		ok := false
-		if evalCall != nil {
+		if evalCall != nil && evalTop != ssa.Instruction(evalCall) {
+			// parse and evaluation are separate helpers: the entry point evaluates only on the nil side of the error of a
+			// helper that returns nil only when the parser recorded no error
+			instrs(fn, func(in ssa.Instruction) {
+				pc, isC := in.(*ssa.Call)
+				if !isC || pc.Call.StaticCallee() == nil || e.fnRole(pc.Call.StaticCallee()) != "interp" || !parseGate(pc.Call.StaticCallee()) || !idominates(pc, evalTop) {
+					return
+				}
+				pei := errResultIndex(pc.Call.StaticCallee())
+				var perr []ssa.Value
+				if pc.Call.StaticCallee().Signature.Results().Len() == 1 {
+					perr = append(perr, pc)
+				} else {
+					for _, ex := range extractOf(pc, pei) {
+						perr = append(perr, ex)
+					}
+				}
+				isNil, _ := knownNilness(evalTop.Block(), func(v ssa.Value) bool {
+					for _, pe := range perr {
+						if strip(v) == strip(pe) {
+							return true
+						}
+					}
+					return false
+				})
+				if isNil {
+					ok = true
+				}
+			})
+		}
+		if evalCall != nil && !ok {
 			for _, cd := range condsAt(evalCall.Block()) {
 				cd = normCond(cd)
 				bo, isB := cd.V.(*ssa.BinOp)
@@ -1162,11 +1196,13 @@ func c09R7(e *Engine) {
 		if !e.anchor("R7", "interp."+name, fn == nil) {
 			continue
 		}
+		// the evaluation call, in the entry point or in a helper it is split into
 		var evalCall *ssa.Call
-		instrs(fn, func(in ssa.Instruction) {
+		var evalCtx []callCtx
+		e.walkLocal("interp", fn, 2, func(in ssa.Instruction, ctx []callCtx) {
 			if c, ok := in.(*ssa.Call); ok {
 				if g := c.Call.StaticCallee(); g != nil && e.fnRole(g) == "lang" && (g.Name() == "Eval" || g.Name() == "EvalUpdate") {
-					evalCall = c
+					evalCall, evalCtx = c, append([]callCtx{}, ctx...)
 				}
 			}
 		})
@@ -1174,12 +1210,13 @@ func c09R7(e *Engine) {
 			e.fail("R7", "interp."+name+":error-object-surfaces", e.pos(fn.Pos()), "no evaluation call found")
 			continue
 		}
-		// success returns (nil error) reachable after the evaluation must lie on the "result.Type() != ERR" edge
 		ok := true
-		ei := errResultIndex(fn)
 		nsucc := 0
-		for _, r := range returnsOf(fn) {
-			if !mayFollow(evalCall, r) || !isNilConst(retVals(r)[ei]) {
+		// level 0: the function that evaluates – success only on the not-an-error-object edge
+		host := evalCall.Parent()
+		ei := errResultIndex(host)
+		for _, r := range returnsOf(host) {
+			if ei < 0 || !mayFollow(evalCall, r) || !isNilConst(retVals(r)[ei]) {
 				continue
 			}
 			nsucc++
@@ -1204,6 +1241,48 @@ func c09R7(e *Engine) {
 			}
 			if !guarded {
 				ok = false
+			}
+		}
+		// levels above: the caller either hands the helper's results on or succeeds only on the nil side of its error
+		for lvl := len(evalCtx) - 1; lvl >= 0; lvl-- {
+			call := evalCtx[lvl].call
+			caller := call.Parent()
+			cei := errResultIndex(caller)
+			hei := errResultIndex(evalCtx[lvl].callee)
+			var herr []ssa.Value
+			if cv, isV := call.(ssa.Value); isV {
+				if evalCtx[lvl].callee.Signature.Results().Len() == 1 {
+					herr = append(herr, cv)
+				} else {
+					for _, ex := range extractOf(cv, hei) {
+						herr = append(herr, ex)
+					}
+				}
+			}
+			isHerr := func(v ssa.Value) bool {
+				for _, h := range herr {
+					if strip(v) == strip(h) {
+						return true
+					}
+				}
+				return false
+			}
+			for _, r := range returnsOf(caller) {
+				if cei < 0 || !mayFollow(call.(ssa.Instruction), r) {
+					continue
+				}
+				rv := retVals(r)[cei]
+				if isHerr(rv) {
+					continue // forwards the helper's verdict
+				}
+				if !isNilConst(rv) {
+					continue
+				}
+				nsucc++
+				isNil, _ := knownNilness(r.Block(), isHerr)
+				if !isNil {
+					ok = false
+				}
 			}
 		}
 		e.check(ok && nsucc > 0, "R7", "interp."+name+":error-object-surfaces", e.ipos(evalCall), "success is returned only on the edge where the evaluation result is not an error object")
@@ -1593,4 +1672,38 @@ func byteCompare(v ssa.Value, isByte func(ssa.Value) bool, b int) (bool, bool) {
 		return int64(b) >= k, true
 	}
 	return false, false
+}
+
+// parseGate: h returns a nil error only on the edge where the parser recorded no error (len(p.Errors()) == 0).
+func parseGate(h *ssa.Function) bool {
+	ei := errResultIndex(h)
+	if h == nil || h.Blocks == nil || ei < 0 {
+		return false
+	}
+	n := 0
+	for _, r := range returnsOf(h) {
+		if !isNilConst(retVals(r)[ei]) {
+			continue
+		}
+		n++
+		guarded := false
+		for _, cd := range condsAt(r.Block()) {
+			cd = normCond(cd)
+			bo, isB := cd.V.(*ssa.BinOp)
+			if !isB {
+				continue
+			}
+			if s, isLen := lenOf(bo.X); isLen {
+				if c, isC := strip(s).(*ssa.Call); isC && c.Call.StaticCallee() != nil && c.Call.StaticCallee().Name() == "Errors" {
+					if k, isK := constInt(bo.Y); isK && k == 0 && ((bo.Op == token.NEQ && !cd.Val) || (bo.Op == token.EQL && cd.Val)) {
+						guarded = true
+					}
+				}
+			}
+		}
+		if !guarded {
+			return false
+		}
+	}
+	return n > 0
 }
